@@ -294,6 +294,8 @@ def main(tier):
                 # the variants that refer to `index` (faulty only in the first iteration) belong to loop bodies: elsewhere they
                 # would be an undefined-symbol fault in disguise
                 vv = rnd.randrange(4) if (kind == "loop" or cls not in ("immrange", "arity")) else rnd.randrange(2)
+                if cls == "undefsym":
+                    vv = rnd.randrange(8)   # 4..7: the undefined name next to a `defined(..)` probe in one expression
                 recs.append({"id": cid, "prog": G.tla_ready(prog), "files": {fn: G.tla_ready(p) for fn, p in files.items()},
                              "class": cls, "v": vv, "infile": infile, "path": path, "pos": pos})
                 bases[cid] = (cls, kind, infile)
